@@ -52,7 +52,7 @@ def generate(ctx):
                      delay=rng.choice([None, 2, 2]), T=rng.randint(5, 10), signs=rng.randrange(4), trace_mode=rng.choice(["cumulative", "nearest"]),
                      delayed=rng.random() < 0.6,
                      # the sum reduction (and every hyper-parameter) given for the cell only; the trainer-wide defaults differ
-                     per_cell=rng.random() < 0.5)
+                     per_cell=rng.random() < 0.5, sumfn=["torch", "inferno.sum", "inferno.nansum"][(i // len(KINDS)) % 3])
             if "Kernel" in d["trainer"] and rng.random() < 0.6:
                 d["kernel"] = "osc"       # user kernel whose sign changes with the time difference: samples can pull opposite ways
             d["dtype"] = "float32"
@@ -64,7 +64,7 @@ def generate(ctx):
                    "seed": rng.randrange(1 << 30), "dtype": "float32", "resize_from": None, "warm": 0, "clear_at": None,
                    "trainer": tname, "conn": conn, "delay": 2, "delayed": True, "signs": rng.randrange(4),
                    "trace_mode": rng.choice(["cumulative", "nearest"]), "per_cell": rng.random() < 0.5,
-                   **({"kernel": "osc"} if tname == "KernelSTDP" else {})}
+                   **({"kernel": "osc"} if tname == "KernelSTDP" else {}), "sumfn": rng.choice(["torch", "inferno.sum", "inferno.nansum"])}
 
 
 def _np(t):
@@ -295,10 +295,15 @@ def _trainer(ctx, desc):
              "kernel": desc.get("kernel")}
     if desc.get("kernel"):
         ctx.count("trainer_cases_with_sign_changing_user_kernel")
+    # "a sum reduction": torch's, or one of the library's own dimension reducers documented as sums
+    from inferno import functional as inff
+    sumfn = {"torch": torch.sum, "inferno.sum": inff.sum, "inferno.nansum": inff.nansum}[desc.get("sumfn", "torch")]
+    if desc.get("sumfn", "torch") != "torch":
+        ctx.count("trainer_cases_with_library_sum_reducers")
     hb = tr.Harness(desc["trainer"], desc["conn"], dt=desc["dt"], B=B, delay_steps=desc["delay"], seed=desc["seed"],
-                    batch_reduction=torch.sum, hyper=hyper, per_cell=bool(desc.get("per_cell")))
+                    batch_reduction=sumfn, hyper=hyper, per_cell=bool(desc.get("per_cell")))
     hs = [tr.Harness(desc["trainer"], desc["conn"], dt=desc["dt"], B=1, delay_steps=desc["delay"], seed=desc["seed"],
-                     batch_reduction=torch.sum, hyper=hyper, per_cell=bool(desc.get("per_cell"))) for _ in range(B)]
+                     batch_reduction=sumfn, hyper=hyper, per_cell=bool(desc.get("per_cell"))) for _ in range(B)]
     if desc.get("per_cell"):
         ctx.count("trainer_cases_with_cell_level_reduction")
     for h in hs:
